@@ -297,6 +297,11 @@ def _ja_unary_post(x, unary_rules, result):
         for r in result:
             if want is None:
                 _count('contract:ja.apply_unary_rules:out-of-domain')
+                # shapes the statement does not single out: the label must still be one of the labels it names
+                fam = schemas_ja.unary_family(rx)
+                if fam is not None and (r.op_string not in fam or r.op_symbol != r.op_string):
+                    _viol('ja:unary-label', f'type-changing step on {refcat.ref_print(rx)} is labelled {r.op_string!r}/{r.op_symbol!r}; '
+                          f'the labels for such inputs are {sorted(fam)}', {'x': refcat.ref_print(rx), 'got': r.op_string})
                 continue
             _count('contract:ja:unary-label-judged')
             if _R is not None:
